@@ -196,6 +196,87 @@ Fixpoint tcp_writev_loop (fuel : nat) (len size : nat) (sched : list kres) : nat
       end
   end.
 
+(** * The two rustls write loops of FrontRustls (lib/src/socket.rs).
+    rustls is abstracted to a plaintext/record buffer holding [p] bytes with an
+    optional limit: [writer().write(n)] takes min(n, limit - p); [write_tls]
+    moves bytes from that buffer to the socket and answers Ok(0) when it is
+    empty; the socket follows a [kres] schedule. *)
+Record tls := mkTls { t_pending : nat; t_limit : option nat; t_flushed : nat }.
+
+Definition tls_accept (t : tls) (n : nat) : nat :=
+  match t_limit t with None => n | Some l => Nat.min n (l - t_pending t) end.
+
+Record wflags := mkW { w_can : bool; w_err : bool; w_closed : bool }.
+
+(** the inner `loop { match write_tls { Ok(0) => break, Ok(_) => {}, WouldBlock => can_write=false ... } }` *)
+Fixpoint tls_flush (fuel : nat) (t : tls) (w : wflags) (sched : list kres) : tls * wflags * list kres :=
+  match fuel with
+  | O => (t, w, sched)
+  | S f =>
+    if t_pending t =? 0 then (t, w, sched)              (* write_tls: nothing to write -> Ok(0) *)
+    else match sched with
+         | [] => (t, mkW false (w_err w) (w_closed w), [])
+         | KWrote 0 :: r => (t, w, r)
+         | KWrote n :: r =>
+           let k := Nat.min n (t_pending t) in
+           tls_flush f (mkTls (t_pending t - k) (t_limit t) (t_flushed t + k)) w r
+         | KWouldBlock :: r => (t, mkW false (w_err w) (w_closed w), r)
+         | KReset :: r => (t, mkW (w_can w) (w_err w) true, r)
+         | KError :: r => (t, mkW (w_can w) true (w_closed w), r)
+         end
+  end.
+
+Definition tls_status (w : wflags) : sres :=
+  if w_err w then Error else if w_closed w then Closed else if negb (w_can w) then WouldBlock else Continue.
+
+(** tail common to both functions: one more flush when rustls still wants to write *)
+Definition tls_tail (fuel : nat) (t : tls) (w : wflags) (sched : list kres) : tls * wflags * list kres :=
+  if negb (w_err w) && negb (w_closed w) && w_can w && negb (t_pending t =? 0)
+  then tls_flush fuel t w sched else (t, w, sched).
+
+(** FrontRustls::socket_write *)
+Fixpoint tls_write_loop (fuel : nat) (len buffered : nat) (t : tls) (w : wflags) (sched : list kres)
+  : nat * tls * wflags * list kres :=
+  match fuel with
+  | O => (buffered, t, mkW (w_can w) true (w_closed w), sched)       (* MAX_LOOP_ITERATIONS *)
+  | S f =>
+    if buffered =? len then (buffered, t, w, sched)
+    else if negb (w_can w) || w_err w || w_closed w then (buffered, t, w, sched)
+    else
+      let a := tls_accept t (len - buffered) in
+      let t1 := mkTls (t_pending t + a) (t_limit t) (t_flushed t) in
+      let '(t2, w2, s2) := tls_flush (S (t_pending t1)) t1 w sched in
+      tls_write_loop f len (buffered + a) t2 w2 s2
+  end.
+
+Definition tls_write (fuel len : nat) (t : tls) (sched : list kres) : nat * sres * tls * list kres :=
+  let '(b, t1, w1, s1) := tls_write_loop fuel len 0 t (mkW true false false) sched in
+  let '(t2, w2, s2) := tls_tail (S (t_pending t1)) t1 w1 s1 in
+  (b, tls_status w2, t2, s2).
+
+(** FrontRustls::socket_write_vectored: the data is offered to rustls only while
+    nothing has been accepted yet; a partial acceptance flushes and returns *)
+Fixpoint tls_writev_loop (fuel : nat) (len buffered : nat) (t : tls) (w : wflags) (sched : list kres)
+  : nat * tls * wflags * list kres :=
+  match fuel with
+  | O => (buffered, t, mkW (w_can w) true (w_closed w), sched)
+  | S f =>
+    if buffered =? len then (buffered, t, w, sched)
+    else if negb (w_can w) || w_err w || w_closed w then (buffered, t, w, sched)
+    else
+      let a := if buffered =? 0 then tls_accept t len else 0 in
+      let t1 := mkTls (t_pending t + a) (t_limit t) (t_flushed t) in
+      let b1 := buffered + a in
+      let '(t2, w2, s2) := tls_flush (S (t_pending t1)) t1 w sched in
+      if (0 <? b1) && (b1 <? len) then (b1, t2, w2, s2)          (* partial: flush, then break *)
+      else tls_writev_loop f len b1 t2 w2 s2
+  end.
+
+Definition tls_writev (fuel len : nat) (t : tls) (sched : list kres) : nat * sres * tls * list kres :=
+  let '(b, t1, w1, s1) := tls_writev_loop fuel len 0 t (mkW true false false) sched in
+  let '(t2, w2, s2) := tls_tail (S (t_pending t1)) t1 w1 s1 in
+  (b, tls_status w2, t2, s2).
+
 (** * Readiness word under edge-triggered delivery *)
 Record rdy := mkY {
   y_event : bool;       (* readiness.event has WRITABLE *)
